@@ -236,6 +236,10 @@ Definition path2_motif (l : list nat) : res shape :=
 Definition star_motif (l : list nat) : res shape :=
   match l with [] => Ok (Edges []) | x :: t => Ok (Edges (map (pair x) t)) end.
 Definition none_motif (l : list nat) : res shape := Ok (Edges []).
+(* a clique builder that drops self-loops: its edge COUNT varies from call to call
+   (fewer edges whenever the drawn stubs repeat a vertex) *)
+Definition clique_noloop_motif (l : list nat) : res shape :=
+  Ok (Edges (filter (fun e => negb (Nat.eqb (fst e) (snd e))) (combos2 l))).
 
 Definition builder_of_code (c : nat) (l : list nat) : res shape :=
   match c with
@@ -247,6 +251,7 @@ Definition builder_of_code (c : nat) (l : list nat) : res shape :=
   | 5 => star_motif l
   | 6 => none_motif l
   | 7 => path2_motif l      (* same edges, each edge a list instead of a tuple *)
+  | 8 => clique_noloop_motif l
   | _ => Err E_UNSUP
   end.
 
